@@ -355,10 +355,89 @@ Definition check_case (cs : mcase) : list (nat * N) :=
   let s := minit cfg names in
   check_init s init ++ check_from 0 s init [] l.
 
-Fixpoint check_all_from (i : nat) (cs : list mcase) : list (nat * nat * N) :=
-  match cs with
-  | [] => []
-  | c :: cs' => map (fun sn => (i, fst sn, snd sn)) (check_case c) ++ check_all_from (S i) cs'
+(** * Atomicity of [mutate; announce] (concurrent family)
+
+    A case: setup calls (sequential), then call X is started and PARKED at its
+    announce point -- inside the first cache.Now() it makes (Remove / Reset /
+    Sync / Connect stamp their announcement there, after Remove's map delete)
+    or inside the first SetClient callback it makes -- while the calls Y run on
+    another goroutine against the same name; X is released when Y has finished
+    or is seen blocked.  Observed: the whole change feed in the order the
+    callback was entered, and HasTarget / Query for every name at the end.
+
+    tag 1 (acceptance): the final existence and non-metadata leaves of every
+          name are those of the model after X;Y or after Y;X.
+    tag 7 (K_P): replaying the feed -- an update sets its leaf, a delete
+          removes what its index path matches, a whole-target delete everything
+          -- gives, per name, exactly the non-metadata leaves Query returns at
+          the end (nothing for an unknown name): an announcement made outside the
+          critical section of its mutation (e.g. the whole-target delete of a
+          Remove overtaken by a re-Add and an update of the new incarnation)
+          breaks this. *)
+
+Definition conccase :=
+  (config * list string * list mop * mop * list mop * list notif * list (string * tobs))%type.
+
+Definition rstate := list (string * list (path * notif)).
+
+Definition replay_entry (st : rstate) (n : notif) : rstate :=
+  let t := feed_tgt n in
+  let cur := match assoc t st with Some l => l | None => [] end in
+  match n_upd n with
+  | _ :: _ =>
+      match upd_index n with
+      | Some p => if is_meta_path p then st
+                  else aset t ((p, n) :: filter (fun e => negb (path_eqb (fst e) p)) cur) st
+      | None => st
+      end
+  | [] =>
+      match del_index n with
+      | Some q => if is_meta_path q then st
+                  else aset t (filter (fun e => negb (qmatch q (fst e))) cur) st
+      | None => st
+      end
   end.
 
-Definition check_all (cs : list mcase) : list (nat * nat * N) := check_all_from 0 cs.
+Definition replay (feed : list notif) : rstate := fold_left replay_entry feed [].
+
+Definition kp_replay (feed : list notif) (final : list (string * tobs)) : bool :=
+  let st := replay feed in
+  forallb (fun kt =>
+             let mine := match assoc (fst kt) st with Some l => l | None => [] end in
+             let theirs := match to_dump (snd kt) with Some d => non_meta d | None => [] end in
+             bag_eqb pn_eqb mine theirs) final.
+
+Definition data_of (c : cache) (k : string) : bool * list (path * notif) :=
+  (cache_has_target c k, match target_dump c k with Some d => non_meta d | None => [] end).
+
+Definition final_matches (c : cache) (final : list (string * tobs)) : bool :=
+  forallb (fun kt =>
+             let '(h, d) := data_of c (fst kt) in
+             Bool.eqb h (to_has (snd kt)) &&
+             bag_eqb pn_eqb d (match to_dump (snd kt) with Some x => non_meta x | None => [] end)) final.
+
+Definition check_conc (cs : conccase) : list (nat * N) :=
+  let '(cfg, names, setup, x, ys, feed, final) := cs in
+  let c0 := fold_left (fun c o => fst (fst (cstep c o))) setup (new_cache cfg names) in
+  let cxy := fold_left (fun c o => fst (fst (cstep c o))) (x :: ys) c0 in
+  let cyx := fold_left (fun c o => fst (fst (cstep c o))) (ys ++ [x]) c0 in
+  (if final_matches cxy final || final_matches cyx final then [] else [(0%nat, 1%N)]) ++
+  (if kp_replay feed final then [] else [(0%nat, 7%N)]).
+
+Inductive c14case :=
+| CSeq (c : mcase)
+| CConc (c : conccase).
+
+Definition check_case14 (c : c14case) : list (nat * N) :=
+  match c with
+  | CSeq m => check_case m
+  | CConc m => check_conc m
+  end.
+
+Fixpoint check_all_from (i : nat) (cs : list c14case) : list (nat * nat * N) :=
+  match cs with
+  | [] => []
+  | c :: cs' => map (fun sn => (i, fst sn, snd sn)) (check_case14 c) ++ check_all_from (S i) cs'
+  end.
+
+Definition check_all (cs : list c14case) : list (nat * nat * N) := check_all_from 0 cs.
